@@ -405,7 +405,9 @@ class Impute(EnvironmentFilter):
             if self._stat == "mean":
                 return sum(values)/len(values)
             if self._stat == "median":
-                return median(values)
+                #the median of an odd number of strings is a string
+                imputation = median(values)
+                return imputation if isinstance(imputation,(int,float)) else None
             if self._stat == "mode":
                 return mode(values)
         except:
